@@ -160,6 +160,24 @@ func init() {
 				}
 				t.Start, t.End, t.Step = (mT0+2)*1e9, (mT0+int64(n)+1)*1e9, 1e9
 			}
+			if r.Intn(16) == 0 {
+				// the same shape shifted to the first seconds after 1970-01-01: windows (and offsets) reach before the epoch
+				shift := t.Start - int64(r.Intn(20))*1e9
+				for i := range t.Recs {
+					t.Recs[i].TS -= shift
+				}
+				t.Start, t.End = t.Start-shift, t.End-shift
+				ok := true
+				for _, rec := range t.Recs {
+					ok = ok && rec.TS >= 0
+				}
+				if !ok {
+					for i := range t.Recs {
+						t.Recs[i].TS += shift
+					}
+					t.Start, t.End = t.Start+shift, t.End+shift
+				}
+			}
 			return t
 		}
 		spec := &Spec[MetricCase]{
